@@ -10,6 +10,8 @@ import warnings
 
 import numpy as np
 
+from hyverif.core import digest
+
 from hyverif.oracles import transforms_ref as tr
 
 ID = "C01"
@@ -111,6 +113,20 @@ def run_config(ctx, case, npts=None):
         ctx.check("roundtrip.shape", False, f"{name}|shape", case,
                   {"x": list(x.shape), "y": list(y.shape)})
         return
+    # the same numbers in another memory layout / container: same transformed values
+    # (numpy's strided loops differ in the last place, and backward subtracts the
+    # shift: tolerance relative to the magnitudes involved)
+    prng = np.random.default_rng(digest(x) % 2 ** 32)
+    shift = max([abs(v) for v in actual.values() if np.isfinite(v)] + [1.0])
+    with np.errstate(all="ignore"):
+        ay = float(np.nanmax(np.abs(y[np.isfinite(y)]), initial=1.0))
+        ax = float(np.nanmax(np.abs(xb[np.isfinite(xb)]), initial=1.0))
+    ctx.presentations(f"{name}.forward",
+                      lambda x_: np.asarray(call(t.forward, x_), dtype=float), [x], y,
+                      case, prng, n=1, rtol=1e-9, atol=1e-10 * (ay + shift))
+    ctx.presentations(f"{name}.backward",
+                      lambda y_: np.asarray(call(t.backward, y_), dtype=float), [y], xb,
+                      case, prng, n=1, rtol=1e-9, atol=1e-10 * (ax + shift))
     sx = ref.scale_x()
     fp = ref.deriv(x)
     denom = np.maximum(np.abs(x), sx)
